@@ -192,7 +192,14 @@ func enumerateDecls(repo string, mod []*packages.Package, canon map[types.Object
 					}
 					d.Scope = rel + "." + nameOf(nt.Obj())
 				}
-				d.Sig = tstr(types.NewSignatureType(nil, nil, nil, sig.Params(), sig.Results(), sig.Variadic()))
+				unnamed := func(t *types.Tuple) *types.Tuple {
+					var vs []*types.Var
+					for k := 0; k < t.Len(); k++ {
+						vs = append(vs, types.NewVar(token.NoPos, nil, "", t.At(k).Type()))
+					}
+					return types.NewTuple(vs...)
+				}
+				d.Sig = tstr(types.NewSignatureType(nil, nil, nil, unnamed(sig.Params()), unnamed(sig.Results()), sig.Variadic()))
 				d.Shape = shapeOf(bodies[o])
 				for k := 0; k < sig.Params().Len(); k++ {
 					d.Params = append(d.Params, sig.Params().At(k).Name())
